@@ -180,7 +180,24 @@ func runC12(r *core.Run) {
 				r.Probe("twin-subject-bootstrap")
 			}
 			desc = fmt.Sprintf("bootstrap(ow=%v,kg=%v,rcn=%q,scn=%q,rs=%d,ss=%d)", f.Overwrite, f.KeepGoing, b.RootCN, b.SignCN, b.RootSerial, b.SignSerial)
+			// the store cannot answer "does this object exist?" for a while (reads and writes work)
+			existsRefused := cfg.CA == "gcsca" && step > 0 && r.Chance(8, "existence-query-refused?")
+			refusals := 0
+			if existsRefused {
+				refusals = 1 + r.Intn(4, "refused-queries")
+				a.Plan.SitePrefix, a.Plan.SiteLeft = "disk.Exists(", refusals
+				desc += "+existence-query-refused"
+			}
 			err, _ = a.Bootstrap(b)
+			if existsRefused && a.Plan.SiteLeft < refusals && err != nil {
+				// the command was cut short by the injected refusal and said so: the keys it had made
+				// or replaced by then are its leftovers, not held against later commands
+				for _, k := range a.KeyNames() {
+					m.excused[k] = true
+				}
+				r.Probe("bootstrap-cut-short-by-refused-query")
+			}
+			a.Plan.SitePrefix, a.Plan.SiteLeft = "", 0
 			made = "boot"
 		case opKind <= 6: // rotate
 			ra := RotArgs{Flags: f, SignCN: cnPool[r.Intn(len(cnPool), "sign-cn")]}
@@ -393,7 +410,7 @@ func c12Check(r *core.Run, a *Authority, m *c12Model, cfg Config, made string, o
 	// Second shape of the same family: a bootstrap given --keep_going (without --overwrite) kept the
 	// stored root certificate object although the root key is a new one.
 	if cfg.CA != "memca" && made == "boot" && f.KeepGoing && !f.Overwrite {
-		if was, had := before[rootPath]; ok && had && bytes.Equal(was, a.CertObjects()[rootPath]) && !refv.CertIssuedBy(cert, root) {
+		if was, had := before[rootPathDefault]; ok && had && bytes.Equal(was, a.CertObjects()[rootPathDefault]) && !refv.CertIssuedBy(cert, root) {
 			shape = "/keep-going-kept-stale-root"
 			r.Probe("keep-going-kept-stale-root")
 			m.staleName, m.staleDER, m.staleShape = primary, der, shape
